@@ -141,6 +141,7 @@ func c36New(cfg c36Cfg, np, nc int, bs0 []int, outbox bool) *c36Sys {
 	}
 	opts := []Option{
 		WithBlockstoreWorkerCount(2), WithTaskWorkerCount(1),
+		WithTargetMessageSize(1 << 20), // all queued tasks of a peer fit one envelope (spec: Envelope pops them all)
 		WithMaxQueuedWantlistEntriesPerPeer(uint(cfg.Limit)),
 		WithWantHaveReplaceSize(replace), WithSetSendDontHave(cfg.Sdh), WithMaxCidSize(c36MaxCidSize),
 	}
